@@ -297,6 +297,7 @@ func run(c *vh.Ctx) {
 				}
 			}
 			keyUpdateHistory(c, cb, certs, key, in)
+			keyUpdateHistoryStd(c, cb, certs, key, in)
 			emptyRecords13(c, cb, certs, key, in)
 		}
 	}
@@ -386,6 +387,64 @@ func keyUpdateHistory(c *vh.Ctx, cb combo, certs testCerts, key string, in map[s
 		map[string]any{"suite": in["suite"], "peer_key_updates": nPeer, "client_key_updates": nOwn, "records": len(recs)})
 }
 
+// keyUpdateHistoryStd: several generations against a peer with its OWN key schedule, the crypto/tls server of
+// the toolchain (it cannot start a key update, but it answers KeyUpdate(update_requested) by ratcheting its
+// sending secret itself): every round the client updates its write keys, on requested rounds the server's
+// answer makes the client ratchet its read keys; data flows both ways under every generation.
+func keyUpdateHistoryStd(c *vh.Ctx, cb combo, certs testCerts, key string, in map[string]any) {
+	p, err := handshakePair(cb.version, cb.suite, certs, false)
+	if err != nil {
+		c.Fail("c25-handshake/"+key, "a suite/version the Go server implements and uTLS supports did not negotiate", in, err.Error(), "handshake completes")
+		return
+	}
+	defer p.close()
+	hsBytes := len(p.crec.take())
+	_, out0 := tls.VerifRecordState(p.client.Conn)
+	var ops []opObs
+	rounds := 5
+	if c.Tier != "quick" {
+		rounds = 12
+	}
+	small := func(k int) []int {
+		sizes := randSizes(c.Rng, k)
+		for i := range sizes {
+			sizes[i] = sizes[i]%3000 + 1
+		}
+		return sizes
+	}
+	nReq := 0
+	for i := 0; i < rounds; i++ {
+		req := i%4 != 2 // mostly requested: each one moves BOTH directions to their next generation
+		if err := p.client.VerifSendKeyUpdate(req); err != nil {
+			c.Fail("c25-keyupdate-std/"+key+"/client-send", "sending KeyUpdate failed", in, err.Error(), "ok")
+			return
+		}
+		ops = append(ops, opObs{ku: true, req: req})
+		if req {
+			nReq++
+		}
+		sizes := small(1 + c.Rng.Intn(2))
+		if err := transfer(p.client.Write, p.server, p.server.SetReadDeadline, sizes, c.Rng); err != nil {
+			c.Fail(fmt.Sprintf("c25-keyupdate-std/%s/c2s-generation-%d", key, i+1),
+				"data written by the client after its key update does not reach an independently ratcheting peer", in, err.Error(), "byte stream intact")
+			return
+		}
+		for _, n := range sizes {
+			ops = append(ops, opObs{size: n})
+		}
+		if err := transfer(p.server.Write, p.client, p.client.SetReadDeadline, small(1+c.Rng.Intn(2)), c.Rng); err != nil {
+			c.Fail(fmt.Sprintf("c25-keyupdate-std/%s/s2c-after-%d-peer-key-updates", key, nReq),
+				"data sent by an independently ratcheting peer after its key updates is not read intact", in, err.Error(), "byte stream intact")
+			return
+		}
+		c.Count("key_updates_std")
+	}
+	recs := splitRecords(p.crec.take())
+	c.Case("stream", fmt.Sprintf("(CStream %d %d %d %d %d %d %s %s)", cb.version, cb.kind, cb.macSize, cb.suite, hsBytes, out0.Seq,
+		opsTerm(ops), recsTerm(recs, 0)), "stream-keyupdates-std/"+key, true,
+		map[string]any{"suite": in["suite"], "client_key_updates": rounds, "peer_key_updates": nReq, "records": len(recs)})
+}
+
 // emptyRecords13: the TLS 1.3 peer interleaves zero-length application data records with data.
 func emptyRecords13(c *vh.Ctx, cb combo, certs testCerts, key string, in map[string]any) {
 	p, err := handshakePairU(cb.version, cb.suite, certs, false)
@@ -394,7 +453,12 @@ func emptyRecords13(c *vh.Ctx, cb combo, certs testCerts, key string, in map[str
 		return
 	}
 	defer p.close()
-	pat := emptyPattern(c.Rng)
+	for _, pat := range emptyPatterns(c.Rng) {
+		emptyRecords13One(c, cb, p, key, in, pat)
+	}
+}
+
+func emptyRecords13One(c *vh.Ctx, cb combo, p *pair, key string, in map[string]any, pat []int) {
 	var want []byte
 	errc := make(chan error, 1)
 	datas := make([][]byte, len(pat))
@@ -430,7 +494,7 @@ func emptyRecords13(c *vh.Ctx, cb combo, certs testCerts, key string, in map[str
 			fmt.Sprint(len(got), " of ", len(want), " bytes, read err=", rerr, " write err=", werr, " panic=", pval), "all bytes")
 	}
 	c.Case("empty", fmt.Sprintf("(CEmpty %d %d %d %s %d %s)", cb.version, cb.kind, cb.macSize, patternTerm(pat), len(got), vh.Bool(rerr != nil || panicked)),
-		"empty/"+key, true, nil)
+		fmt.Sprintf("empty/%s/%d-%d", key, len(pat), pat[0]), true, nil)
 }
 
 func tamperOnce(c *vh.Ctx, cb combo, certs testCerts, key string, in map[string]any, t int, recTrunc int) error {
